@@ -35,6 +35,14 @@ def parse_raw(v):
     return ('p', int(s))
 
 
+def differs(setting, a, b):
+    """variable lists are compared with their types and spelling (1, 1.0 and True are different values of a
+    list that goes onto command lines); everything else with Python's =="""
+    if setting in VARS:
+        return json.dumps(a, sort_keys=True, default=str) != json.dumps(b, sort_keys=True, default=str)
+    return a != b
+
+
 class Codes(object):
     """opaque values <-> Nat codes for the model"""
     def __init__(self):
@@ -150,6 +158,12 @@ def value_for(setting, level_idx, rng, salt=0):
         return rng.choice([True, False])
     if setting == 'env':
         return rng.choice([{'LVL': 'l%d_%d' % (k, salt)}, {'LVL': 'l%d' % k, 'X': 'y'}, {}])
+    if setting in ('input_sizes', 'variable_values', 'cores') and rng.random() < 0.3:
+        # lists that are equal under Python's == but differ in type / spelling (1 == 1.0 == True): the level's own
+        # list has to arrive, not an equal one from another level or the built-in default `cores: [1]`
+        if setting == 'cores':
+            return [1.0] if k % 2 else [True]
+        return [[1, 2], [1.0, 2.0], [True, 2]][k % 3]
     if setting == 'input_sizes':
         return rng.choice([[k + 10 * salt], [k, 100 + k], ['s%d' % k]] + ([[]] if rng.random() < 0.25 else []))
     if setting == 'cores':
@@ -292,12 +306,12 @@ class Batch(object):
             for obs in obs_all[:1] + ([obs_all[-1]] if len(obs_all) > 1 else []):
                 bad_m = [k for k in model if obs[k] != model[k] or type(obs[k]) is not type(model[k]) and not
                          (isinstance(obs[k], (int, bool)) and isinstance(model[k], (int, bool)) and obs[k] == model[k])]
-                bad_m = [k for k in model if obs[k] != model[k]]
+                bad_m = [k for k in model if differs(k, obs[k], model[k])]
                 if bad_m:
                     ck.disagree('c02.compile: RunId accessors vs RB.Settings.compileRun', inp,
                                 {k: obs[k] for k in bad_m}, {k: model[k] for k in bad_m})
                 for k in want:
-                    if obs[k] != want[k]:
+                    if differs(k, obs[k], want[k]):
                         ck.oracle_fail('effective_' + k, inp, {'setting': k, 'effective': obs[k], 'expected': want[k]},
                                        {'setting': k})
             # the cross product of the effective lists gives the runs of this benchmark
